@@ -9,26 +9,38 @@ ENTRIES = ["entry_relabel", "entry_neighbors", "entry_colors", "entry_euler", "e
            "entry_check_acc"]
 EXTRACT = ("theories/Extract/XC15.v", "c15", ENTRIES)
 PYX = {"_cpmorphology2.pyx": ["_all_connected_components"]}
-RULE = ("label images: shapes skewed to 1x1, 1xN, Nx1, 2x2, 3x3 and up to 12x12 (thorough 20x20); contents from "
-        "random labels at several densities, connected components of noise with random renumbering, rings and nested "
-        "rings (holes), split labels, absent label numbers (x3), objects on the border, checkerboards, several dtypes; "
-        "every image goes through relabel, find_neighbors, color_labels and euler_number (indexes incl. absent labels, "
-        "and indexes=None). Edge lists: random multigraphs with self-loops, duplicates and isolated vertices, stars, "
-        "cycles, shuffled and sorted chains up to 3000 vertices (thorough 50000: deep traversal). Non-trivial = an image "
-        "with two touching labels or a hole, a graph with an edge joining two different vertices; distinct by hash")
+RULE = ("label images: shapes skewed to 1x1, 1xN, Nx1, 2x2, 3x3 and up to 12x12 (thorough 16x16); contents from random "
+        "labels at several densities, connected components of noise with random renumbering, rings and nested rings "
+        "(holes), split labels, objects on the border, checkerboards, and fully tiled images without any background "
+        "pixel (random tiles, blocks, stripes, one object); numbering plain / absent numbers (x2,x3,x7) / sparse up to "
+        "300, 5000, 60000 / largest label at a dtype maximum (127, 255, 32767, 65535); every integer dtype that holds "
+        "the labels (int8..int64, uint8..uint64; bool for euler_number's binary mode), C / Fortran / strided / "
+        "read-only layouts; every image goes through relabel, find_neighbors, color_labels and euler_number; "
+        "euler_number indexes as list, tuple, int32/int64/uint8/uint16/uint32 arrays, scalar and None, sorted, "
+        "shuffled, with duplicates and absent labels. Edge lists: random multigraphs with self-loops, duplicates and "
+        "isolated vertices, stars, cycles, shuffled and sorted chains up to 3000 vertices (thorough 50000: deep "
+        "traversal), vertex numbers up to 100000 (thorough 400000) with few edges, in int64/int32/uint32/uint64/"
+        "int16/uint8, contiguous / strided / read-only. Every case is called twice in the same worker process "
+        "(results must agree, input arrays must come back unmodified) and the functions are interleaved in random "
+        "order within one process. Non-trivial = an image with two touching labels or a hole, a graph with an edge "
+        "joining two different vertices; distinct by hash")
 TRUSTED = ["modelled, not verified: NumPy/SciPy array semantics used by the Python code (np.unique, lexsort, fancy "
-           "indexing, scipy.ndimage.sum/minimum_filter/maximum_filter) as transcribed in Model/LabelGraph.v",
+           "indexing, scipy.ndimage.sum/minimum_filter/maximum_filter) as transcribed in Model/LabelGraph.v; dtype "
+           "promotion / wrap-around is not modelled (labels are Z) - it is exercised by the correspondence over "
+           "every integer dtype incl. labels at the dtype maximum",
            "the stack array stack_v[0..stack_ptr) of _all_connected_components is modelled as a list; uint32 "
            "UNDEFINED = -1 is modelled as an absent map entry; the C arrays are PositiveMap-backed",
-           "euler = components - holes is proved by exhaustive kernel evaluation on small images only (Finite: all "
-           "images up to 3x3 over {0,1,2}, binary images 1x4..3x4, 4x1..4x3, 1x5, 2x5, 5x1, 5x2); the general case "
-           "rests on quad_counts_spec (Full) plus the executable flood-fill definition Spec.LabelGraph.euler_spec "
-           "evaluated on every generated case",
-           "the flood-fill executable specifications in Spec/LabelGraph.v (fill/components) are definitions, not "
-           "proved equivalent to an inductive connectivity relation; for graphs with more than 80 edges the partition is "
-           "checked by a Python union-find instead of the extracted Spec.LabelGraph.acc_ok"]
+           "euler = components - holes: Full for the quad counts (quad_counts_spec), for the local change under "
+           "deletion of a pixel and for every image reducible by simple/isolated deletions (euler_reducible, value "
+           "4k); equality with components - holes is Finite (exhaustive small images) and otherwise conditional "
+           "on C05's simple_removal_topo (Partial); the executable flood-fill definition euler_spec is evaluated on "
+           "every generated case",
+           "the spanning-forest certificate for all_connected_components is computed by the Python harness but only "
+           "verified by the extracted Spec.LabelGraph.acc_cert_ok (soundness proved), so it is not trusted"]
 ASSUMPTIONS = ["labels are non-negative integers; label images are rectangular and non-empty",
-               "vertex numbers are non-negative and below 2^32 - 1; fewer than 2^32 edges"]
+               "vertex numbers are non-negative and below 2^32 - 1; fewer than 2^32 edges (vertex numbers near 2^31 are not "
+               "run: the label array alone would need > 8 GB)",
+               "relabel is not run on uint64 images (TypeError on the unchanged tree, findings/C15.json candidate C15-obs1)"]
 EXHAUSTIVE = {"quick": False, "thorough": False}
 CASE_TIMEOUT = 120
 
@@ -97,23 +109,108 @@ def _image(rng, big):
     return lab
 
 
-def _img_cases(rng, lab):
+INT_DTYPES = ["int8", "int16", "int32", "int64", "uint8", "uint16", "uint32", "uint64"]
+LAYOUTS = ["C", "C", "F", "strided", "ro"]
+IDX_KINDS = ["list", "list", "int32", "int64", "uint8", "uint16", "uint32", "tuple"]
+
+
+def _tiled(rng, big):
+    """label images without any background pixel"""
+    h, w = _shape(rng, big)
+    kind = rng.choice(["rand", "blocks", "stripes", "one"])
+    if kind == "rand":
+        return rng.randint(1, int(rng.choice([2, 3, 5, 9])) + 1, (h, w))
+    if kind == "blocks":
+        by, bx = int(rng.randint(1, 4)), int(rng.randint(1, 4))
+        yy, xx = np.mgrid[0:h, 0:w]
+        lab = (yy // by) * ((w + bx - 1) // bx) + (xx // bx) + 1
+        if rng.rand() < 0.5:
+            lab = rng.permutation(int(lab.max()) + 1)[lab] + 1
+        return lab
+    if kind == "stripes":
+        yy, xx = np.mgrid[0:h, 0:w]
+        return (yy if rng.rand() < 0.5 else xx) // int(rng.randint(1, 3)) % int(rng.randint(2, 5)) + 1
+    return np.full((h, w), int(rng.randint(1, 6)))
+
+
+def _renumber(rng, lab, pbig=1.0):
+    """numbering variants: as is / absent numbers / sparse numbering up to 60000 / largest label at a dtype maximum"""
     lab = np.asarray(lab, int)
     mx = int(lab.max())
-    dt = str(rng.choice(DTYPES))
-    if mx > 250:
-        dt = "int64"
-    img = lab.tolist()
-    cases = [{"fn": f, "img": img, "dt": dt} for f in ("relabel", "neighbors", "colors")]
     u = rng.rand()
-    if u < 0.2:
-        idx = None
-    elif u < 0.6:
-        idx = list(range(1, mx + 2))
-    else:
-        idx = [int(x) for x in rng.randint(1, mx + 3, int(rng.randint(1, 5)))]
-    cases.append({"fn": "euler", "img": img, "dt": dt, "idx": idx})
+    if mx == 0 or u < 0.55:
+        return lab, "plain"
+    if u < 0.70:
+        return lab * int(rng.choice([2, 3, 7])), "absent"
+    if u < 0.85:
+        top = int(rng.choice([300, 300, 5000, 60000]))
+        if top > 10000 and rng.rand() >= pbig:
+            top = 5000
+        if top > 10000:
+            lab = lab[:6, :6]; mx = int(lab.max())
+            if mx == 0:
+                return lab, "plain"
+        tab = np.hstack([[0], np.sort(rng.choice(np.arange(1, top + 1), mx, replace=False))])
+        return tab[lab], "sparse%d" % top
+    top = int(rng.choice([127, 127, 255, 255, 32767, 65535]))
+    if top > 10000 and rng.rand() >= pbig:
+        top = 255
+    if top > 10000:
+        lab = lab[:6, :6]; mx = int(lab.max())
+    if mx >= top or mx == 0:
+        return lab, "plain"
+    tab = np.arange(mx + 1); tab[mx] = top
+    return tab[lab], "dtype_max_%d" % top
+
+
+def _img_cases(rng, lab, pbig=1.0):
+    lab, num = _renumber(rng, lab, pbig)
+    mx = int(lab.max())
+    ok = [d for d in INT_DTYPES if np.iinfo(d).max >= mx]
+    if num.startswith("dtype_max"):
+        ok = [d for d in ok if np.iinfo(d).max == mx] or ok
+    img = lab.tolist()
+    cases = []
+    for f in ("relabel", "neighbors", "colors", "euler"):
+        dt = str(rng.choice(ok))
+        c = {"fn": f, "img": img, "dt": dt, "lay": str(rng.choice(LAYOUTS)), "num": num}
+        if f == "relabel" and dt == "uint64":
+            # relabel rejects uint64 label images on the unchanged tree (TypeError: max()+1 is a float); excluded, counted
+            c["dt"] = "uint32" if mx <= 4294967295 else "int64"
+            c["excl"] = "relabel_uint64"
+        if f == "euler":
+            u = rng.rand()
+            if u < 0.15:
+                c["idx"], c["ik"] = None, "none"
+                if rng.rand() < 0.5:
+                    c["dt"] = "bool"
+                    c["img"] = [[1 if v else 0 for v in r] for r in img]
+            elif u < 0.25:
+                c["idx"], c["ik"] = int(rng.randint(1, mx + 3)), "scalar"
+            else:
+                if u < 0.55:
+                    idx = list(range(1, min(mx, 40) + 2))
+                    if rng.rand() < 0.4:
+                        rng.shuffle(idx)
+                else:
+                    pres = [int(x) for x in np.unique(lab[lab > 0])] or [1]
+                    idx = [int(rng.choice(pres)) if rng.rand() < 0.7 else int(rng.randint(1, mx + 3))
+                           for _ in range(int(rng.randint(1, 6)))]
+                ik = str(rng.choice(IDX_KINDS))
+                if ik.startswith("uint") and max(idx) > np.iinfo(ik).max:
+                    ik = "int64"
+                c["idx"], c["ik"] = idx, ik
+        cases.append(c)
     return cases
+
+
+ACC_DTYPES = ["int64", "int64", "int32", "uint32", "uint64", "int16", "uint8"]
+
+
+def _acc_case(rng, i, j):
+    mx = max(i + j) if i else 0
+    ok = [d for d in ACC_DTYPES if np.iinfo(d).max >= mx]
+    return {"fn": "acc", "i": i, "j": j, "dt": str(rng.choice(ok)), "lay": str(rng.choice(["C", "C", "strided", "ro"]))}
 
 
 def _graph(rng, chain_max):
@@ -174,24 +271,49 @@ CORPUS_GRAPHS = [
 
 def generate(ctx):
     rng = ctx.rng
-    big = ctx.n(12, 20)
+    big = ctx.n(12, 16)
+    pbig = ctx.n(1.0, 0.12)          # share of the 16-bit-range numberings that is kept (cost of the per-label spec)
     cases = []
     for img in CORPUS_IMAGES:
         cases.extend(_img_cases(rng, img))
     for i, j in CORPUS_GRAPHS:
         cases.append({"fn": "acc", "i": list(i), "j": list(j)})
+    ncorpus = len(cases)
     for _ in range(ctx.n(700, 8000)):
-        cases.extend(_img_cases(rng, _image(rng, big)))
+        cases.extend(_img_cases(rng, _tiled(rng, big) if rng.rand() < 0.2 else _image(rng, big), pbig))
     chain_max = ctx.n(3000, 50000)
     for _ in range(ctx.n(1500, 20000)):
         i, j = _graph(rng, chain_max if rng.rand() < ctx.n(0.05, 0.004) else 200)
-        cases.append({"fn": "acc", "i": i, "j": j})
+        cases.append(_acc_case(rng, i, j))
+    # large vertex numbers with few edges (many isolated vertices); ids near 2^31 would need label arrays of
+    # 2^31 entries (> 24 GB with bincount) and are excluded, counted
+    ctx.count("excluded_vertex_ids_near_2^31")
+    for _ in range(ctx.n(4, 8)):
+        top = int(rng.choice([70000, ctx.n(100000, 400000)]))
+        ne = int(rng.randint(1, 8))
+        i = rng.randint(0, top, ne); j = rng.randint(0, top, ne); i[0] = top
+        cases.append(_acc_case(rng, i.tolist(), j.tolist()))
     # the deep-traversal cases are always present
     for n in (chain_max, chain_max // 2):
         cases.append({"fn": "acc", "i": list(range(n - 1)), "j": list(range(1, n))})
         cases.append({"fn": "acc", "i": list(range(n - 1, 0, -1)), "j": list(range(n - 2, -1, -1))})
+    # interleave the functions: all calls of a run happen in one worker process
+    tail = cases[ncorpus:]
+    order = rng.permutation(len(tail))
+    cases = cases[:ncorpus] + [tail[k] for k in order]
     for c in cases:
         ctx.count(c["fn"])
+        if c["fn"] != "acc":
+            ctx.count("dtype_" + c.get("dt", "int64")); ctx.count("layout_" + c.get("lay", "C"))
+            ctx.count("numbering_" + c.get("num", "plain"))
+            if c.get("excl"):
+                ctx.count("excluded_" + c["excl"])
+            if all(v != 0 for r in c["img"] for v in r):
+                ctx.count("img_no_background")
+            if c["fn"] == "euler":
+                ctx.count("euler_idx_" + c.get("ik", "list"))
+        else:
+            ctx.count("acc_dtype_" + c.get("dt", "int64")); ctx.count("acc_layout_" + c.get("lay", "C"))
         if c["fn"] == "acc":
             ctx.count("acc_edges<=20" if len(c["i"]) <= 20 else "acc_edges<=400" if len(c["i"]) <= 400 else "acc_edges>400")
         elif c["fn"] == "euler":
@@ -202,33 +324,67 @@ def generate(ctx):
 
 # ------------------------------------------------------------------------------- implementation
 
-def impl(case):
-    from centrosome import cpmorphology as M
+def _mk(vals, dt, lay):
+    a = np.array(vals, dt)
+    if lay == "F":
+        a = np.asfortranarray(a)
+    elif lay == "strided":
+        big = np.zeros(tuple(2 * s for s in a.shape), a.dtype)
+        big[(slice(None, None, 2),) * a.ndim] = a
+        a = big[(slice(None, None, 2),) * a.ndim]
+    elif lay == "ro":
+        a.setflags(write=False)
+    return a
+
+
+def _call(case, M):
     fn = case["fn"]
+    dt, lay = case.get("dt", "int64"), case.get("lay", "C")
     if fn == "acc":
-        i = np.array(case["i"], int); j = np.array(case["j"], int)
+        i = _mk(case["i"], dt, lay); j = _mk(case["j"], dt, lay)
+        keep = (i.copy(), j.copy())
         r = M.all_connected_components(i, j)
-        return {"lab": [int(x) for x in np.asarray(r).tolist()]}
-    lab = np.array(case["img"], case["dt"])
+        out = {"lab": [int(x) for x in np.asarray(r).tolist()]}
+        return out, bool(np.array_equal(i, keep[0]) and np.array_equal(j, keep[1]))
+    lab = _mk(case["img"], dt, lay)
+    keep = lab.copy()
     if fn == "relabel":
         r, n = M.relabel(lab)
-        return {"img": np.asarray(r).astype(int).tolist(), "n": int(n)}
-    if fn == "neighbors":
+        out = {"img": np.asarray(r).astype(int).tolist(), "n": int(n)}
+    elif fn == "neighbors":
         c, i, n = M.find_neighbors(lab)
-        return {"count": [int(x) for x in c], "index": [int(x) for x in i], "nb": [int(x) for x in n]}
-    if fn == "colors":
-        return {"col": np.asarray(M.color_labels(lab)).astype(int).tolist()}
-    if fn == "euler":
-        w = M.euler_number(lab, case["idx"])
+        out = {"count": [int(x) for x in c], "index": [int(x) for x in i], "nb": [int(x) for x in n]}
+    elif fn == "colors":
+        out = {"col": np.asarray(M.color_labels(lab)).astype(int).tolist()}
+    elif fn == "euler":
+        idx, ik = case["idx"], case.get("ik", "list")
+        if ik == "tuple":
+            idx = tuple(idx)
+        elif ik not in ("list", "none", "scalar"):
+            idx = np.array(idx, ik)
+        w = M.euler_number(lab, idx)
         w = np.atleast_1d(np.asarray(w, float))
-        w4 = []
+        out = {"w4": []}
         for x in w.tolist():
             y = x * 4.0
             if y != int(y) or float(int(y)) / 4.0 != x:
-                return {"w4": None, "raw": [repr(v) for v in w.tolist()]}
-            w4.append(int(y))
-        return {"w4": w4}
-    raise ValueError(fn)
+                out = {"w4": None, "raw": [repr(v) for v in w.tolist()]}
+                break
+            out["w4"].append(int(y))
+    else:
+        raise ValueError(fn)
+    return out, bool(np.array_equal(lab, keep))
+
+
+def impl(case):
+    """two calls on freshly built equal inputs in the same process (results must agree: no state kept between
+    calls), inputs must come back unmodified"""
+    from centrosome import cpmorphology as M
+    out, same1 = _call(case, M)
+    out2, same2 = _call(case, M)
+    out["input_unmodified"] = same1 and same2
+    out["repeatable"] = out2 == {k: v for k, v in out.items() if k != "input_unmodified"}
+    return out
 
 
 def _bad(o):
@@ -238,6 +394,8 @@ def _bad(o):
 def _euler_args(case):
     if case["idx"] is None:
         return [[[1 if v != 0 else 0 for v in r] for r in case["img"]], [1]]
+    if isinstance(case["idx"], int):
+        return [case["img"], [case["idx"]]]
     return [case["img"], case["idx"]]
 
 
@@ -289,6 +447,8 @@ def compare(case, out, m):
         return "implementation raised/crashed: %s" % (str(out)[:300],)
     if isinstance(m, dict):
         return "model error: %s" % (m,)
+    if not out.get("repeatable", True):
+        return "%s: a second call on an equal input in the same process gave a different result" % case["fn"]
     if case["fn"] == "euler" and out["w4"] is None:
         return "euler_number returned a value that is not a multiple of 1/4: %s" % (out["raw"],)
     if case["fn"] == "acc" and m == []:
@@ -299,33 +459,32 @@ def compare(case, out, m):
     return None
 
 
-SMALL_GRAPH = 80
-
-
-def _uf_labels(i, j):
-    """independent oracle for big graphs: union-find, components numbered by lowest vertex"""
-    if len(i) == 0:
-        return []
-    n = max(max(i), max(j)) + 1
-    p = list(range(n))
-
-    def f(x):
-        while p[x] != x:
-            p[x] = p[p[x]]
-            x = p[x]
-        return x
-    for a, b in zip(i, j):
-        ra, rb = f(a), f(b)
-        if ra != rb:
-            p[max(ra, rb)] = min(ra, rb)
-    num = {}
-    out = []
-    for v in range(n):
-        r = f(v)
-        if r not in num:
-            num[r] = len(num)
-        out.append(num[r])
-    return out
+def _forest_certificate(i, j, lab):
+    """spanning forest of the undirected edge list (BFS from the lowest unvisited vertex): par, index of the
+    edge to the parent, depth, and for every label the root carrying it.  Only VERIFIED by the extracted
+    Spec.LabelGraph.acc_cert_ok (soundness: Proofs/AccCertC15.v), so nothing here is trusted."""
+    n = len(lab)
+    adj = [[] for _ in range(n)]
+    for k, (a, b) in enumerate(zip(i, j)):
+        if a < n and b < n:
+            adj[a].append((b, k)); adj[b].append((a, k))
+    par = list(range(n)); eidx = [0] * n; dep = [0] * n
+    seen = [False] * n
+    top = max(lab) if lab else 0
+    rep = [0] * (top + 1) if top <= 4 * n + 16 else None
+    for r in range(n):
+        if seen[r]:
+            continue
+        seen[r] = True
+        if rep is not None:
+            rep[lab[r]] = r
+        queue = [r]
+        for v in queue:
+            for w, k in adj[v]:
+                if not seen[w]:
+                    seen[w] = True; par[w] = v; eidx[w] = k; dep[w] = dep[v] + 1
+                    queue.append(w)
+    return par, eidx, dep, rep
 
 
 def check(ctx, cases, outs):
@@ -336,12 +495,22 @@ def check(ctx, cases, outs):
             res[k] = "implementation raised/crashed on a valid input: %s" % (str(o)[:300],)
             continue
         fn = c["fn"]
+        if not o.get("input_unmodified", True):
+            res[k] = "%s modified its input array" % fn
+            continue
+        if not o.get("repeatable", True):
+            res[k] = "%s: a second call on an equal input in the same process gave a different result" % fn
+            continue
         if fn == "acc":
-            if len(c["i"]) <= SMALL_GRAPH and (not c["i"] or max(c["i"] + c["j"]) <= SMALL_GRAPH):
-                items.append((k, "entry_check_acc", [c["i"], c["j"], o["lab"]]))
+            lab = o["lab"]
+            if not c["i"]:
+                items.append((k, "entry_check_acc", [[], [], lab, [], [], [], []]))
+                continue
+            par, eidx, dep, rep = _forest_certificate(c["i"], c["j"], lab)
+            if rep is None:
+                res[k] = "all_connected_components: label values far outside 0..n-1: %s" % (str(lab)[:200],)
             else:
-                if o["lab"] != _uf_labels(c["i"], c["j"]):
-                    res[k] = "all_connected_components: labels are not the connected components of the edge list"
+                items.append((k, "entry_check_acc", [c["i"], c["j"], lab, par, eidx, dep, rep]))
         elif fn == "relabel":
             items.append((k, "entry_check_relabel", [c["img"], o["img"], o["n"]]))
         elif fn == "neighbors":
@@ -354,7 +523,7 @@ def check(ctx, cases, outs):
             else:
                 items.append((k, "entry_check_euler", _euler_args(c) + [o["w4"]]))
     msg = {"entry_check_acc": "all_connected_components: labels are not the partition into connected components "
-                              "(Spec.LabelGraph.acc_ok false)",
+                              "(Spec.LabelGraph.acc_cert_ok rejects the labelling with a spanning-forest certificate)",
            "entry_check_relabel": "relabel: not an order-preserving renumbering to 1..n (Spec.LabelGraph.relabel_ok false)",
            "entry_check_neighbors": "find_neighbors: lists differ from the 8-adjacent other labels "
                                     "(Spec.LabelGraph.neighbors_ok false)",
@@ -393,10 +562,11 @@ def kernel_crosscheck(ctx, cases, outs):
             if c["fn"] != fn or _bad(outs[k]):
                 continue
             if fn == "acc":
-                if not (0 < len(c["i"]) <= 12):
+                if not (0 < len(c["i"]) <= 12) or max(c["i"] + c["j"]) > 40:
                     continue
             else:
-                if len(c["img"]) * len(c["img"][0]) > 20 or (fn == "euler" and outs[k]["w4"] is None):
+                if (len(c["img"]) * len(c["img"][0]) > 20 or max(max(r) for r in c["img"]) > 40
+                        or (fn == "euler" and outs[k]["w4"] is None)):
                     continue
             idx.append(k)
         idx = idx[8:8 + lim] if len(idx) > 8 + lim else idx[:lim]
@@ -420,7 +590,7 @@ def search_cases(ctx, rnd):
         cases.extend(_img_cases(rng, _image(rng, 9)))
     for _ in range(400):
         i, j = _graph(rng, 300)
-        cases.append({"fn": "acc", "i": i, "j": j})
+        cases.append(_acc_case(rng, i, j))
     return cases
 
 
@@ -428,25 +598,31 @@ def shrink_candidates(case):
     if case["fn"] == "acc":
         i, j = case["i"], case["j"]
         n = len(i)
+
+        def g(a, b, **kw):
+            d = dict(case); d["i"] = a; d["j"] = b; d.update(kw)
+            return d
         if n > 3:
             h = n // 2
-            yield {"fn": "acc", "i": i[:h], "j": j[:h]}
-            yield {"fn": "acc", "i": i[h:], "j": j[h:]}
+            yield g(i[:h], j[:h])
+            yield g(i[h:], j[h:])
         if 1 < n <= 40:
             for k in range(n):
-                yield {"fn": "acc", "i": i[:k] + i[k + 1:], "j": j[:k] + j[k + 1:]}
+                yield g(i[:k] + i[k + 1:], j[:k] + j[k + 1:])
         if n <= 40:
             vs = sorted(set(i + j))
             ren = {v: k for k, v in enumerate(vs)}
             if any(ren[v] != v for v in vs):
-                yield {"fn": "acc", "i": [ren[v] for v in i], "j": [ren[v] for v in j]}
+                yield g([ren[v] for v in i], [ren[v] for v in j])
+        if case.get("dt", "int64") != "int64" or case.get("lay", "C") != "C":
+            yield g(i, j, dt="int64", lay="C")
         return
     img = case["img"]
     h, w = len(img), len(img[0])
 
     def mk(im):
         d = dict(case); d["img"] = im
-        if d["fn"] == "euler" and d.get("idx"):
+        if d["fn"] == "euler" and isinstance(d.get("idx"), list):
             d["idx"] = list(d["idx"])
         return d
     if h > 1:
@@ -456,8 +632,10 @@ def shrink_candidates(case):
     if w > 1:
         for c in range(w):
             yield mk([row[:c] + row[c + 1:] for row in img])
-    if case.get("dt") != "int64":
-        d = mk(img); d["dt"] = "int64"
+    if case.get("dt") not in ("int64", "bool") or case.get("lay", "C") != "C":
+        d = mk(img); d["lay"] = "C"
+        if d.get("dt") != "bool":
+            d["dt"] = "int64"
         yield d
     if h * w <= 64:
         for r in range(h):
@@ -465,7 +643,7 @@ def shrink_candidates(case):
                 if img[r][c] != 0:
                     im = [list(x) for x in img]; im[r][c] = 0
                     yield mk(im)
-    if case["fn"] == "euler" and case.get("idx") and len(case["idx"]) > 1:
+    if case["fn"] == "euler" and isinstance(case.get("idx"), list) and len(case["idx"]) > 1:
         for k in range(len(case["idx"])):
             d = mk(img); d["idx"] = case["idx"][:k] + case["idx"][k + 1:]
             yield d
